@@ -121,3 +121,74 @@ func TestC09(t *testing.T) {
 		props.Judge(rt, ev, oracleC09, c, func() any { return map[string]any{"scenario": sc, "kind": f.Kind, "kpos": f.Pos} })
 	})
 }
+
+const ruleC17 = "5 families x both front-ends x approve/compare x secrets drawn from an alphabet with URL- and regexp-significant characters (password; PAN-OS API key; NSX session token) x success or one fault at a drawn position (all kinds, concentrated on login and first requests); every file under basedir, the policy log dir and the -L dir plus stdout/stderr is scanned for each secret in plain, query-escaped and path-escaped form (credentials file excluded); the SSH simulator does not echo input typed at a password prompt; " +
+	"non-trivial = the secret was really sent/received in the run; distinct = hash of the scenario"
+
+func drawSecret(rt *rapid.T, label string) string {
+	alpha := []rune("abcXYZ0189&=%+?#/$.*:;,!@^~-_()[]{}<>|")
+	if label == "key" {
+		// A PAN-OS API key is base64 text; the tool puts it into the URL as is.
+		alpha = []rune("abcdefXYZ0123456789-_=")
+	}
+	n := rapid.IntRange(8, 14).Draw(rt, label+"len")
+	var b []rune
+	for i := 0; i < n; i++ {
+		b = append(b, rapid.SampledFrom(alpha).Draw(rt, label))
+	}
+	// unique high-entropy core so that a hit is never accidental
+	return "S3c" + string(b) + "r3T"
+}
+
+func TestC17(t *testing.T) {
+	ev := evid.New("C17", ruleC17)
+	props.Finish(t, ev)
+	rapid.Check(t, func(rt *rapid.T) {
+		fam := rapid.SampledFrom(families).Draw(rt, "family")
+		sc := genBase(rt, fam)
+		sc.Front = rapid.SampledFrom([]string{"drc", "do-approve"}).Draw(rt, "front")
+		sc.Verb = rapid.SampledFrom([]string{"approve", "compare"}).Draw(rt, "verb")
+		sc.Password = drawSecret(rt, "pw")
+		sc.APIKey = drawSecret(rt, "key")
+		sc.Token = drawSecret(rt, "tok")
+		if rapid.IntRange(0, 3).Draw(rt, "withFault") != 0 {
+			max := 30
+			if rapid.Bool().Draw(rt, "early") {
+				max = 4
+			}
+			sc.Faults = []FaultSpec{drawFault(rt, fam, max, rapid.IntRange(0, 9).Draw(rt, "stallOK") == 0)}
+		}
+		c := sc.Case("C17")
+		props.Judge(rt, ev, oracleC17, c, func() any { return sc })
+	})
+}
+
+const ruleC15 = "generated IOS change scripts (real drc approve against sshdev) x a banner plan of 1-3 banners: command index x form in {inside the echo at character offset j, before the echo followed by a fresh prompt, after the echo, after the echo with an extra prompt} x kind in {0:02:00, 0:01:00} x optionally split into two write() calls; oracle: reload guard ordering from the transcript and metamorphic equality (exit status, accepted commands, final running and startup configuration) with the same run without banners; " +
+	"non-trivial = at least one banner lands on a change command; distinct = hash of scenario + banner plan"
+
+func TestC15(t *testing.T) {
+	ev := evid.New("C15", ruleC15)
+	props.Finish(t, ev)
+	rapid.Check(t, func(rt *rapid.T) {
+		sc := genBase(rt, "ios")
+		sc.Front = rapid.SampledFrom([]string{"drc", "do-approve"}).Draw(rt, "front")
+		n := rapid.IntRange(1, 3).Draw(rt, "nBanners")
+		used := map[int]bool{}
+		for i := 0; i < n; i++ {
+			b := BannerSpec{
+				Chg:    rapid.IntRange(0, 30).Draw(rt, "chg"),
+				Form:   rapid.SampledFrom([]string{"inside", "inside", "before", "after", "after-prompt"}).Draw(rt, "form"),
+				Offset: rapid.IntRange(1, 40).Draw(rt, "offset"),
+				Kind:   rapid.SampledFrom([]string{"0:02:00", "0:02:00", "0:01:00"}).Draw(rt, "kind"),
+				Split:  rapid.IntRange(0, 3).Draw(rt, "split") == 0,
+			}
+			if used[b.Chg] {
+				continue
+			}
+			used[b.Chg] = true
+			sc.Banners = append(sc.Banners, b)
+		}
+		c := sc.Case("C15")
+		props.Judge(rt, ev, oracleC15, c, func() any { return sc })
+	})
+}
